@@ -16,16 +16,16 @@ CHECKS = {
     "C11": ("Hypothesis-generated operation sequences on molecule batches vs a float64 scipy-Rotation model; round trips over 24 Euler sequences, quaternion/rotvec/matrix/from_axes; enumerated 24 axis-aligned frames",
             "Model-based exploration: a generated sequence of rotate/translate calls is applied to Molecules and to an independent rigid-motion model and compared after every step (positions, orientations, copy semantics), plus round-trip, affine-matrix and local-coordinate oracles on the initial and final state. The 24 axis-aligned frames are enumerated for from_axes.",
             "Euler 'xyz' convention checked only through round trips/self-consistency; linear_transform is not modelled (its semantics are not stated by the property); float32 position storage tolerance 2e-3 per step", "4/C11"),
-    "C12": ("Hypothesis-generated histories of table operations vs a list-of-rows model (uid encoded in position and rotation vector); rejection cases generated",
+    "C12": ("Hypothesis-generated histories of table operations vs a list-of-rows model (uid encoded in position and rotation vector); rejection cases generated; aliasing sequences (copy / concat of one, then in-place append), data-frame operations around an in-place append, boolean list / Series masks, null values in cutby",
             "Model-based (stateful) exploration: histories of <=10 table operations over a pool of tables are replayed on a plain Python row model; every live table is compared with its model after every step; inconsistent inputs must raise the documented exception type and leave the table unchanged.",
             "polars null semantics assumed for predicates; sort position of nulls, feature column order and dtypes not asserted; all-null columns contributed only by empty inputs may be absent", "4/C12"),
-    "C02": ("Hypothesis-generated (tomogram, chunking, pose class incl. crop-window boundary classes, shape, order, scale, corner_safe) vs scipy map_coordinates at the stated sampling rule; differential between the four loading routes",
+    "C02": ("Hypothesis-generated (tomogram, chunking, pose class incl. crop-window boundary classes, shape, order, scale, corner_safe) vs scipy map_coordinates at the stated sampling rule; differential between the four loading routes; tomogram dtypes float16 (also near the top of its range), float32, float64",
             "Generated-input exploration with a reference-model oracle (voxel-by-voxel sampling rule inside the guaranteed region, exact-block class, finite fill / out-of-bound error contract, identical results from load / asnumpy / load_iter / construct_dask).",
             "guaranteed region without corner_safe = voxel centres within (min(shape)-1)/2 of the box centre; order-3 values compared >= 3 voxels inside the tomogram with 2e-2*range (local prefilter); nearest-neighbour rounding ties skipped", "4/C02"),
     "C13": ("Hypothesis-generated tables (orientations near 0/pi, feature dtypes with nulls, precisions, suffixes) round-tripped through data frame / parquet / csv / to_file and compared with the original",
             "Generated-input exploration with a round-trip oracle: exact for data frames and Parquet, to the requested decimal precision for CSV; column order and suffix dispatch checked on the written bytes.",
             "strings that CSV type inference cannot distinguish (empty, numeric-looking, true/false, NaN) are excluded from the domain; dtype equality not asserted for CSV", "4/C13"),
-    "C04": ("Hypothesis-generated displaced copies (analytic Gaussian blobs / Fourier-shifted broadband texture) with planted displacement incl. boundary classes; oracle = planted d with the tolerances stated in the property",
+    "C04": ("Hypothesis-generated displaced copies (analytic Gaussian blobs / Fourier-shifted broadband texture) with planted displacement incl. boundary classes; oracle = planted d with the tolerances stated in the property; ranges wider than half the box, intensity gains 1e-4..100 and grey offsets up to 300, the same model called again after another orientation",
             "Generated-input exploration against planted ground truth: |shift-d| <= 0.1 px (ZNCC/NCC/PCC unmasked) or 0.5 px (FSC / masked), identity quaternion, superposition after shifting back, normalised score >= 0.9, via align and fit, with masks, cutoffs, tilt models and quaternions.",
             "three recorded known findings (ZNCC/NCC fractional bias <= 0.15 px; ZNCC/NCC tilt bias <= 1 px; FSC tilt bias <= 0.75 px) are counted, not failed; FSC only on broadband templates; masks never cut the core of the displaced density; tilt half-widths >= 40 deg", "4/C04"),
     "C01": ("Hypothesis-generated planted poses: analytic Gaussian-blob particles rendered into tomograms at (p*, R*), input molecules perturbed by (m, q_k) inside the search range; oracle = planted pose and features, for single/batch/group/mock/multi-template/template-free loaders",
@@ -34,37 +34,37 @@ CHECKS = {
     "C06": ("Hypothesis-generated planted (template j, rotation k, shift d) sub-volumes built analytically; oracle = planted labels/rotation/shift, score optimality against separately evaluated candidates, permutation metamorphic relation; loader/group routes on planted tomograms incl. a 375-candidate search; (max, step) grids against the documented construction",
             "Generated-input exploration with planted ground truth, a differential optimality oracle (full search == max over candidates evaluated alone), a metamorphic permutation relation, and a documented-grid oracle for (max, step) ranges.",
             "rotation sets contain the identity and are >= 25 deg apart; FSC not used (degenerate on band-limited blobs); PCC with unequal-energy templates is a recorded known finding; optimality oracle only for T*K <= 9", "4/C06"),
-    "C05": ("Hypothesis-generated degenerate / unrelated / boundary sub-volumes x max_shifts classes (0, <0.75, off-grid, integer, > box, anisotropic) x models x rotation sets; loader-level routes with scalar/tuple/list/numpy-scalar limits; enumerated max_shifts spellings",
+    "C05": ("Hypothesis-generated degenerate / unrelated / boundary sub-volumes x max_shifts classes (0, <0.75, off-grid, integer, > box, anisotropic) x models x rotation sets; loader-level routes with scalar/tuple/list/numpy-scalar limits; enumerated max_shifts spellings; ndarray limits reused for a second call (argument must stay untouched)",
             "Generated-input exploration with a validity oracle: no exception, finite shift and score, |shift_i| <= max_shifts_i (model level) and displacement along the input molecule's own axes within max_shifts (loader level, all five alignment routes).",
             "FSC limited to max_shifts <= 3 px / boxes <= 10; rotation sets contain the identity; 0-d numpy arrays are not treated as a documented max_shifts spelling", "4/C05"),
-    "C07": ("Hypothesis-generated image pairs / masks / cutoffs / tilt models vs a float64 reference pipeline (mask, Butterworth, wedge, Pearson or cosine); metamorphic gain/offset invariance; differential score == landscape centre == zero-range align; integer-landscape arg-max vs align shift and upsampled-landscape nodes vs integer samples on planted peaks; loader rows vs model",
+    "C07": ("Hypothesis-generated image pairs / masks / cutoffs / tilt models vs a float64 reference pipeline (mask, Butterworth, wedge, Pearson or cosine); metamorphic gain/offset invariance; differential score == landscape centre == zero-range align; integer-landscape arg-max vs align shift and upsampled-landscape nodes vs integer samples on planted peaks; loader rows vs model; multi-template models against single-template scores, wide-range landscapes",
             "Generated-input exploration with a reference-model oracle (2e-4), metamorphic invariances and differential agreement between score, landscape and align for the normalised models; loader.score / construct_landscape rows against the model applied to subtomogram i.",
             "the wedge mask in the reference is the model's own (geometry is C08's); planted peaks >= 0.6 px inside the range with mild noise; FSC agreement limited to boxes <= 10", "4/C07"),
-    "C09": ("Hypothesis-generated loaders (single/batch/group/mock, numpy or chunked dask) vs numpy means of the loaded subtomograms; split halves decoded from power-of-two constant blocks",
+    "C09": ("Hypothesis-generated loaders (single/batch/group/mock, numpy or chunked dask) vs numpy means of the loaded subtomograms; split halves decoded from power-of-two constant blocks; stacks split into unequal dask blocks (array.chunk-size), an FSC evaluation between two split calls",
             "Generated-input exploration with a reference oracle (average == mean of asnumpy, count-weighted batch mean, per-group means, chunking independence) and a decoding oracle for split averaging (disjoint, exhaustive, non-empty, reproducible, consistent with the full average and with fsc_with_halfmaps).",
             "split decoding uses identity-oriented molecules inside constant blocks of value 2^i (exact in float32)", "4/C09"),
-    "C15": ("Hypothesis-generated image shapes / bin sizes / chunkings / compute flags / loaders vs block-sum reference; exact-class subtomograms compared with block sums of b-times-larger subtomograms",
+    "C15": ("Hypothesis-generated image shapes / bin sizes / chunkings / compute flags / loaders vs block-sum reference; exact-class subtomograms compared with block sums of b-times-larger subtomograms; integer tomograms, numpy-integer bin sizes",
             "Generated-input exploration with a reference oracle (binned image == block sums, scale and position bookkeeping, parent untouched, lazy == eager) and an exact metamorphic relation between binned and original subtomograms on the binned grid.",
             "exact class: identity orientation and voxel-aligned positions in both loaders; compute flag not asserted for b == 1 (binning(1) is a copy)", "4/C15"),
     "C17": ("Hypothesis-generated image pairs / shapes / shell widths vs a float64 per-shell reference; symmetry and rescaling metamorphic relations; loader-level tables recomputed from the returned half-maps and masks",
             "Generated-input exploration with a reference-model oracle per shell, metamorphic relations (symmetry, positive rescaling, self-correlation = 1) and a differential oracle at loader level (table == reference applied to the returned half-maps x mask; half-maps == average_split - mean; reproducibility; column names).",
             "shells below the single-precision noise floor and shells touched by exact boundary ties are skipped and counted", "4/C17"),
-    "C10": ("differential testing across dask schedulers (synchronous / threads 1-16 / harness-owned completion orders drawn by Hypothesis) and chunkings; cooperative thread scheduler with schedule points at the shared template cache driven by drawn schedules, all 2-thread schedules of length 8 enumerated; single-preemption schedules A..B..A with interpreter-level (sys.settrace call/return/line) schedule points inside acryo frames, enumerated over every point for model- and loader-level task pairs; lazy vs computed shapes; preemption stress in the thorough tier",
+    "C10": ("differential testing across dask schedulers (synchronous / threads 1-16 / harness-owned completion orders drawn by Hypothesis) and chunkings; cooperative thread scheduler with schedule points at the shared template cache driven by drawn schedules, all 2-thread schedules of length 8 enumerated; single-preemption schedules A..B..A with interpreter-level (sys.settrace call/return/line) schedule points inside acryo frames, enumerated over every point for model- and loader-level task pairs; lazy vs computed shapes; preemption stress in the thorough tier; the same molecules submitted in reverse order; alternation schedules with 2-8 hand-overs at drawn point budgets",
             "Exploration of harness-owned schedules: generated computations must give identical results under every scheduler / chunking, every drawn interleaving of threads sharing one model must reproduce the sequential results without error, and lazy arrays must report their computed shape. The 2-thread, length-8 schedule space over score and every single-preemption point of score/align/landscape (4 models, cold caches) are enumerated completely.",
             "interleavings inside numpy/scipy/polars C code and free-threaded interpreters are not owned by the harness (only sampled by the stress engine); cooperative schedule points are the accesses to TemplateMaskCache._dict and attribute writes on the shared model; the settrace engine performs one hand-over per run", "4/C10"),
-    "C14": ("Hypothesis-generated components / poses (grid-coincident, fractional, rotated, straddling, outside, negative) vs a float64 reference that evaluates each template at c + R^-1 (X - pos/scale); exact-paste, loader round trip, partition/order metamorphic relations, 2-D vs z-projection differential",
+    "C14": ("Hypothesis-generated components / poses (grid-coincident, fractional, rotated, straddling, outside, negative) vs a float64 reference that evaluates each template at c + R^-1 (X - pos/scale); exact-paste, loader round trip, partition/order metamorphic relations, 2-D vs z-projection differential; dense grid-coincident templates, volumes with one axis of 3-8 or 1000-3100 voxels, provider templates, simulator objects whose components were overwritten",
             "Generated-input exploration with a reference-model oracle for the whole volume, exact oracles for grid-coincident poses (paste and loader round trip) and metamorphic/differential relations (component and molecule order, additivity, simulate_2d == projection).",
             "template density confined to the inscribed ball minus 2 voxels; order-0 volumes are compared only for grid-coincident poses (nearest-neighbour ties)", "4/C14"),
-    "C03": ("Hypothesis-generated histories of loader construction / derivation / grouping operations on identity-encoding tomograms vs a list-of-rows model; per-molecule results compared with single-molecule loaders",
+    "C03": ("Hypothesis-generated histories of loader construction / derivation / grouping operations on identity-encoding tomograms vs a list-of-rows model; per-molecule results compared with single-molecule loaders; index lists / arrays / stepped slices for load, duplicate image ids, unseeded sampled groups",
             "Model-based (stateful) exploration: every voxel encodes (tomogram, z, y, x), so the subtomogram returned for row i names the molecule it was cut at; rows, image ids, features, ancestors and group partitions are compared with a Python model after every step, and score/align/landscape/apply rows with single-molecule loaders.",
             "add_tomogram/add_loader are treated as construction steps (documented to mutate); binning is checked for bookkeeping only (values are C15's)", "4/C03"),
-    "C18": ("Hypothesis-generated image stacks / masks / chunkings vs an exact numpy SVD of the centred masked matrix; planted clusters; loader.classify on tomograms with interleaved planted classes",
+    "C18": ("Hypothesis-generated image stacks / masks / chunkings vs an exact numpy SVD of the centred masked matrix; planted clusters; loader.classify on tomograms with interleaved planted classes; integer stacks, boolean masks, transform / predict of subsets, single images and fresh batches, row subsets in any order",
             "Generated-input exploration with a reference-model oracle (singular values, principal subspaces, projections, orthonormality, chunking independence), planted-truth cluster recovery, and a bookkeeping oracle for loader.classify (one integer column in molecule order, nothing else changed).",
             "components compared as subspaces where singular values are within 1% of each other; cluster recovery only asserted for well separated planted classes and n_clusters <= k + 1", "4/C18"),
-    "C19": ("recursive Hypothesis strategy over pipeline expression trees (providers, converters, arithmetic with scalars on either side, comparisons, unary minus, @) evaluated against a small interpreter (nested function application + numpy); metamorphic scale covariance; analytic Gaussian; mask-converter laws; currying",
+    "C19": ("recursive Hypothesis strategy over pipeline expression trees (providers, converters, arithmetic with scalars on either side, comparisons, unary minus, @) evaluated against a small interpreter (nested function application + numpy); metamorphic scale covariance; analytic Gaussian; mask-converter laws; currying; comparisons on tie-rich integer images for every operand-kind pair, repeated evaluation of the same pipeline object, masks touching the box faces and binary masks of other dtypes",
             "Generated-program exploration: every generated pipeline expression is built with the library operators and compared with an independent interpreter of the same tree; @-chains are checked for associativity; physical-unit parameters are checked by the metamorphic relation (lambda*params, lambda*scale) == (params, scale), from_gaussian against the closed form, rescaling providers, extensivity laws of the mask converters, curried functions and loader.normalize_*.",
             "parameters passing through ceil/round/int are generated in the pixel domain away from discontinuities; arithmetic on comparison results is not generated; mask laws on masks r+1 voxels away from the faces", "4/C19"),
-    "C20": ("Hypothesis-generated volumes with planted particles placed relative to drawn chunk borders (interior / border / 8-chunk corner), dtypes, scales, chunkings incl. chunks smaller than the overlap; oracle = bijection between strong picks and planted particles, planted rotation for the template matcher, numpy vs chunked differential",
+    "C20": ("Hypothesis-generated volumes with planted particles placed relative to drawn chunk borders (interior / border / 8-chunk corner), dtypes, scales, chunkings incl. chunks smaller than the overlap; oracle = bijection between strong picks and planted particles, planted rotation for the template matcher, numpy vs chunked differential; thin slabs, close diagonal pairs, on-grid exactness, image baselines up to 5000, provider templates reused at another pixel size, axes cut into chunks thinner than the overlap depth, 300 searched rotations",
             "Generated-input exploration against planted ground truth (each particle picked exactly once within 1 px, planted searched rotation reported, nothing strong elsewhere) plus a differential oracle between numpy input and a drawn dask chunking.",
             "strong pick = score >= 0.5 (LoG/DoG) / 0.75 (template matcher) x median score at the planted sites; particles >= 7 sigma (1.6 template boxes) apart and 4 sigma away from the faces", "4/C20"),
 }
